@@ -333,3 +333,283 @@ Section WithOracle.
     End Idem.
   End WithSort.
 End WithOracle.
+
+(* ---------- the sort key of an element ---------- *)
+
+Definition kv_strs (kvs : list (cnode * cnode)) : list (string * string) :=
+  map (fun kv => (cvalue (fst kv), cvalue (snd kv))) kvs.
+
+Definition last_val (f : string) (l : list (string * string)) (acc : string) : string :=
+  fold_left (fun acc kv => if String.eqb (fst kv) f then snd kv else acc) l acc.
+
+Lemma scan_map f kvs acc :
+  scan_field f (flat_map (fun kv : cnode * cnode => [fst kv; snd kv]) kvs) acc =
+  Ok (last_val f (kv_strs kvs) acc).
+Proof.
+  revert acc. induction kvs as [|kv t IH]; intros acc; cbn; auto.
+  rewrite IH. reflexivity.
+Qed.
+
+Lemma last_val_filter f l acc :
+  last_val f l acc = last_val f (filter (fun d => String.eqb (fst d) f) l) acc.
+Proof.
+  revert acc. induction l as [|x t IH]; intros acc; cbn; auto.
+  destruct (String.eqb (fst x) f) eqn:E; cbn; rewrite ?E; apply IH.
+Qed.
+
+Lemma seq_key_map f h kvs :
+  String.eqb f "" = false ->
+  seq_key f (CMap h kvs) = Ok (last_val f (filter (fun d => String.eqb (fst d) f) (kv_strs kvs)) "").
+Proof.
+  intros E. unfold seq_key. rewrite E. cbn [content]. rewrite scan_map, last_val_filter. reflexivity.
+Qed.
+
+Lemma filter_map_key {A} (g : string * A -> string * string) f (l : list (string * A)) :
+  Forall (fun d => fst (g d) = fst d) l ->
+  filter (fun d => String.eqb (fst d) f) (map g l) =
+  map g (filter (fun d => String.eqb (fst d) f) l).
+Proof.
+  induction 1 as [|d t Hd Ht IH]; cbn; auto.
+  rewrite Hd. destruct (String.eqb (fst d) f); cbn; rewrite IH; reflexivity.
+Qed.
+
+Lemma seq_key_ok f e :
+  String.eqb f "" = true \/ is_seq_node e = false -> exists k, seq_key f e = Ok k.
+Proof.
+  intros [E|E].
+  - unfold seq_key. rewrite E. eauto.
+  - destruct (String.eqb f "") eqn:Ef; [unfold seq_key; rewrite Ef; eauto|].
+    destruct e as [h v|h kvs|h es|h v]; try discriminate.
+    + unfold seq_key. rewrite Ef. cbn. eauto.
+    + rewrite seq_key_map; eauto.
+    + unfold seq_key. rewrite Ef. cbn. eauto.
+Qed.
+
+(* ---------- keyed_ok / wf_keys: unfolding ---------- *)
+
+Lemma keyed_ok_map kind api p h kvs :
+  keyed_ok kind api p (CMap h kvs) = true ->
+  Forall (fun kv => keyed_ok kind api p (fst kv) = true /\
+                    keyed_ok kind api (p ++ "." ++ cvalue (fst kv)) (snd kv) = true) kvs.
+Proof.
+  cbn [keyed_ok]. induction kvs as [|kv t IH]; intros H; constructor.
+  - apply andb_true_iff in H. destruct H as [H _]. apply andb_true_iff in H. exact H.
+  - apply IH. apply andb_true_iff in H. apply H.
+Qed.
+
+Lemma keyed_ok_seq kind api p h es :
+  keyed_ok kind api p (CSeq h es) = true -> Forall (fun e => keyed_ok kind api p e = true) es.
+Proof.
+  cbn [keyed_ok]. intros H. apply andb_true_iff in H. destruct H as [_ H].
+  induction es as [|e t IH]; constructor.
+  - apply andb_true_iff in H. apply H.
+  - apply IH. apply andb_true_iff in H. apply H.
+Qed.
+
+Lemma keyed_ok_elems kind api p h es f e :
+  keyed_ok kind api p (CSeq h es) = true -> sort_field kind api p = Some f -> In e es ->
+  String.eqb f "" = true \/ is_seq_node e = false.
+Proof.
+  cbn [keyed_ok]. intros H SF Hin. rewrite SF in H.
+  apply andb_true_iff in H. destruct H as [H _]. apply orb_true_iff in H.
+  destruct H as [H|H]; auto. right.
+  rewrite forallb_forall in H. specialize (H e Hin). destruct (is_seq_node e); auto; discriminate.
+Qed.
+
+Lemma nodup_strs_NoDup l : nodup_strs l = true -> NoDup l.
+Proof.
+  induction l as [|x t IH]; cbn; intros H; constructor.
+  - apply andb_true_iff in H. destruct H as [H _]. intros Hin.
+    assert (str_in x t = true).
+    { clear - Hin. induction t as [|y t IH]; cbn; [contradiction|].
+      destruct Hin as [->|Hin]; [rewrite String.eqb_refl; auto|]. rewrite IH; auto. apply orb_true_r. }
+    rewrite H0 in H. discriminate.
+  - apply IH. apply andb_true_iff in H. apply H.
+Qed.
+
+Lemma wf_keys_map h kvs :
+  wf_keys (CMap h kvs) = true ->
+  NoDup (key_values kvs) /\ Forall (fun kv => wf_keys (fst kv) = true /\ wf_keys (snd kv) = true) kvs.
+Proof.
+  cbn [wf_keys]. intros H. apply andb_true_iff in H. destruct H as [H1 H2]. split.
+  - apply nodup_strs_NoDup. exact H1.
+  - clear H1. induction kvs as [|kv t IH]; constructor.
+    + apply andb_true_iff in H2. destruct H2 as [H _]. apply andb_true_iff in H. exact H.
+    + apply IH. apply andb_true_iff in H2. apply H2.
+Qed.
+
+Lemma wf_keys_seq h es : wf_keys (CSeq h es) = true -> Forall (fun e => wf_keys e = true) es.
+Proof.
+  cbn [wf_keys]. induction es as [|e t IH]; intros H; constructor.
+  - apply andb_true_iff in H. apply H.
+  - apply IH. apply andb_true_iff in H. apply H.
+Qed.
+
+Section Instances.
+  Variable nonstr : string -> bool.
+  Variables kind api : string.
+
+  (* ---------- never a panic when no sequence sits in a keyed whitelisted list ---------- *)
+  Theorem fmt_no_panic srt : forall n s p,
+    keyed_ok kind api p n = true -> exists n', fmt_node nonstr srt kind api s p n = Ok n'.
+  Proof.
+    induction n as [h v|h v|h kvs IH|h es IH] using cnode_ind'; intros s p Hok.
+    - cbn. eauto.
+    - cbn. eauto.
+    - rewrite fmt_map_eq.
+      assert (HD : exists D, fmt_pairs nonstr srt kind api s p kvs = Ok D).
+      { apply keyed_ok_map in Hok. induction kvs as [|kv t IHt]; cbn [fmt_pairs]; [eauto|].
+        inv IH. inv Hok. destruct H1 as [I1 I2]. destruct H3 as [O1 O2].
+        destruct (I1 SNil p O1) as [k' Hk]. rewrite Hk. cbn [bind].
+        destruct (I2 (sch_field s (cvalue (fst kv))) _ O2) as [v' Hv]. rewrite Hv. cbn [bind].
+        destruct (IHt H2 H4) as [D HD]. rewrite HD. cbn [bind]. eauto. }
+      destruct HD as [D HD]. rewrite HD. cbn [bind]. eauto.
+    - rewrite fmt_seq_eq.
+      assert (HE : exists E, fmt_elems nonstr srt kind api (sch_elems s) p es = Ok E).
+      { apply keyed_ok_seq in Hok. clear - IH Hok. induction es as [|e t IHt]; cbn [fmt_elems]; [eauto|].
+        inv IH. inv Hok. destruct (H1 (sch_elems s) p H3) as [e' He]. rewrite He. cbn [bind].
+        destruct (IHt H2 H4) as [E HE]. rewrite HE. cbn [bind]. eauto. }
+      destruct HE as [E HE]. rewrite HE. cbn [bind].
+      destruct (sort_field kind api p) as [f|] eqn:SF; [|eauto].
+      assert (HK : exists K, seq_keys f es = Ok K).
+      { unfold seq_keys. destruct (2 <=? List.length es)%nat; [|eauto].
+        assert (HA : Forall (fun e => exists k, seq_key f e = Ok k) es).
+        { rewrite Forall_forall. intros e Hin. apply seq_key_ok. eapply keyed_ok_elems; eauto. }
+        clear - HA. induction HA as [|e t [k Hk] _ [K HK]]; cbn; [eauto|].
+        rewrite Hk. cbn [bind]. rewrite HK. cbn [bind]. eauto. }
+      destruct HK as [K HK]. rewrite HK. cbn [bind]. eauto.
+  Qed.
+
+  (* ---------- the sort key of a mapping element survives formatting when the sort keeps the
+     relative order of the entries carrying the sort field ---------- *)
+  Lemma map_elem_keeps_key srt s p h0 kvs e' f k :
+    String.eqb f "" = false ->
+    (forall D, Forall2 (pair_rel nonstr srt kind api s p) kvs D ->
+       Permutation (srt _ (lt_fst less_key) D) D /\
+       filter (fun d => String.eqb (fst d) f) (srt _ (lt_fst less_key) D) =
+       filter (fun d => String.eqb (fst d) f) D) ->
+    fmt_node nonstr srt kind api s p (CMap h0 kvs) = Ok e' ->
+    seq_key f (CMap h0 kvs) = Ok k -> seq_key f e' = Ok k.
+  Proof.
+    intros Ef Hst Hf Hk.
+    rewrite fmt_map_eq in Hf. apply bind_ok in Hf. destruct Hf as [D [HD Hf]]. inv Hf.
+    rewrite seq_key_map in * by exact Ef. rewrite <- Hk. f_equal. f_equal.
+    apply fpairs_ok in HD. destruct (Hst D HD) as [HP HF].
+    set (g := fun d : string * (cnode * cnode) => (cvalue (fst (snd d)), cvalue (snd (snd d)))).
+    assert (HG : Forall (fun d => fst (g d) = fst d) D).
+    { eapply Forall2_Forall_r with (Q := fun _ => True); [exact HD| |].
+      - rewrite Forall_forall. auto.
+      - intros kv d _ [R1 [R2 R3]]. subst g. cbn. rewrite R1.
+        apply (fmt_cvalue _ _ _ _ _ _ _ _ R2). }
+    assert (HM : map g D = kv_strs kvs).
+    { clear - HD. induction HD as [|kv d t D' [R1 [R2 R3]] _ IH]; cbn; auto.
+      rewrite IH. f_equal. subst g. cbn.
+      rewrite (fmt_cvalue _ _ _ _ _ _ _ _ R2), (fmt_cvalue _ _ _ _ _ _ _ _ R3). reflexivity. }
+    unfold kv_strs at 1. rewrite map_map.
+    change (map (fun x : string * (cnode * cnode) => (cvalue (fst (snd x)), cvalue (snd (snd x))))
+                (srt _ (lt_fst less_key) D)) with (map g (srt _ (lt_fst less_key) D)).
+    rewrite filter_map_key.
+    - rewrite HF. rewrite <- filter_map_key by exact HG. rewrite HM. reflexivity.
+    - eapply Forall_perm; [apply Permutation_sym; exact HP|exact HG].
+  Qed.
+
+  Lemma elem_keeps_key srt (cond : cnode -> Prop) :
+    (forall s p h0 kvs f, cond (CMap h0 kvs) ->
+       forall D, Forall2 (pair_rel nonstr srt kind api s p) kvs D ->
+         Permutation (srt _ (lt_fst less_key) D) D /\
+         filter (fun d => String.eqb (fst d) f) (srt _ (lt_fst less_key) D) =
+         filter (fun d => String.eqb (fst d) f) D) ->
+    forall f e, (String.eqb f "" = true \/ is_seq_node e = false) -> cond e ->
+    forall s p e' k,
+      fmt_node nonstr srt kind api s p e = Ok e' -> seq_key f e = Ok k -> seq_key f e' = Ok k.
+  Proof.
+    intros Hst f e Hel Hc s p e' k Hf Hk.
+    destruct (String.eqb f "") eqn:Ef.
+    - unfold seq_key in *. rewrite Ef in *. rewrite (fmt_cvalue _ _ _ _ _ _ _ _ Hf). exact Hk.
+    - destruct Hel as [E|E]; [congruence|].
+      destruct e as [h0 v|h0 kvs|h0 es0|h0 v]; try discriminate.
+      + cbn in Hf. inv Hf. exact Hk.
+      + eapply map_elem_keeps_key; eauto.
+      + cbn in Hf. inv Hf. exact Hk.
+  Qed.
+
+  (* ---------- idempotence with the stable sort Go uses up to 12 elements ---------- *)
+  Theorem fmt_idem_isort : forall n s p n',
+    keyed_ok kind api p n = true ->
+    fmt_node nonstr isort kind api s p n = Ok n' -> fmt_node nonstr isort kind api s p n' = Ok n'.
+  Proof.
+    apply (fmt_idem_gen nonstr isort kind api isort_S1 (keyed_ok kind api)).
+    - apply keyed_ok_map.
+    - apply keyed_ok_seq.
+    - intros p h es f Hok SF e Hin s e' k.
+      apply (elem_keeps_key isort (fun _ => True)); auto.
+      + intros s0 p0 h0 kvs f0 _ D _. unfold isort. split.
+        * apply isort_perm.
+        * apply (isort_filter less_key less_key_strict_total).
+      + eapply keyed_ok_elems; eauto.
+  Qed.
+
+  (* ---------- idempotence with ANY sort meeting (S1), for documents with unique keys ---------- *)
+  Lemma filter_key_le1 {B} f (l : list (string * B)) :
+    NoDup (map fst l) -> (List.length (filter (fun d => String.eqb (fst d) f) l) <= 1)%nat.
+  Proof.
+    induction l as [|x t IH]; cbn; intros H; [lia|]. inv H.
+    destruct (String.eqb (fst x) f) eqn:E; [|auto].
+    apply String.eqb_eq in E. cbn.
+    assert (filter (fun d : string * B => String.eqb (fst d) f) t = []).
+    { clear - H2 E. induction t as [|y t IH]; cbn in *; auto.
+      destruct (String.eqb (fst y) f) eqn:Ey.
+      - apply String.eqb_eq in Ey. exfalso. apply H2. left. congruence.
+      - apply IH. intros Hin. apply H2. right. exact Hin. }
+    rewrite H. cbn. lia.
+  Qed.
+
+  Lemma perm_filter {A} (q : A -> bool) l l' : Permutation l l' -> Permutation (filter q l) (filter q l').
+  Proof.
+    induction 1; cbn; auto.
+    - destruct (q x); auto.
+    - destruct (q x), (q y); auto. apply perm_swap.
+    - etransitivity; eauto.
+  Qed.
+
+  Lemma perm_filter_unique {B} f (l l' : list (string * B)) :
+    NoDup (map fst l) -> Permutation l' l ->
+    filter (fun d => String.eqb (fst d) f) l' = filter (fun d => String.eqb (fst d) f) l.
+  Proof.
+    intros Hnd Hp.
+    pose proof (filter_key_le1 f l Hnd) as L.
+    pose proof (perm_filter (fun d : string * B => String.eqb (fst d) f) _ _ Hp) as P.
+    destruct (filter (fun d : string * B => String.eqb (fst d) f) l) as [|a [|b r]]; cbn in L; try lia.
+    - apply Permutation_sym, Permutation_nil in P. exact P.
+    - apply Permutation_sym, Permutation_length_1_inv in P. exact P.
+  Qed.
+
+  Definition ok_wf (p : string) (n : cnode) : bool := keyed_ok kind api p n && wf_keys n.
+
+  Theorem fmt_idem_S1 srt : S1 srt -> forall n s p n',
+    keyed_ok kind api p n = true -> wf_keys n = true ->
+    fmt_node nonstr srt kind api s p n = Ok n' -> fmt_node nonstr srt kind api s p n' = Ok n'.
+  Proof.
+    intros HS1 n s p n' K W. apply (fmt_idem_gen nonstr srt kind api HS1 ok_wf).
+    - intros p0 h kvs H. unfold ok_wf in *. apply andb_true_iff in H. destruct H as [H1 H2].
+      apply keyed_ok_map in H1. apply wf_keys_map in H2. destruct H2 as [_ H2].
+      rewrite Forall_forall in *. intros kv Hin. destruct (H1 kv Hin), (H2 kv Hin).
+      split; apply andb_true_iff; auto.
+    - intros p0 h es H. unfold ok_wf in *. apply andb_true_iff in H. destruct H as [H1 H2].
+      apply keyed_ok_seq in H1. apply wf_keys_seq in H2.
+      rewrite Forall_forall in *. intros e Hin. apply andb_true_iff; auto.
+    - intros p0 h es f H SF e Hin s0 e' k.
+      unfold ok_wf in H. apply andb_true_iff in H. destruct H as [H1 H2].
+      apply (elem_keeps_key srt (fun e => wf_keys e = true)).
+      + intros s1 p1 h0 kvs f0 Wk D HD.
+        destruct (HS1 _ less_key less_key_strict_total D) as [HP _]. split; [exact HP|].
+        apply perm_filter_unique; [|exact HP].
+        apply wf_keys_map in Wk. destruct Wk as [Nd _].
+        assert (map fst D = key_values kvs).
+        { clear - HD. unfold key_values. induction HD as [|kv d t D' [R1 _] _ IH]; cbn; congruence. }
+        rewrite H. exact Nd.
+      + eapply keyed_ok_elems; eauto.
+      + apply wf_keys_seq in H2. rewrite Forall_forall in H2. auto.
+    - unfold ok_wf. rewrite K, W. reflexivity.
+  Qed.
+End Instances.
